@@ -23,6 +23,25 @@ func c18Gen(rt *rapid.T) e4Case {
 		// connection: the one of the first transmission, or (after a drop / cut) the retransmitting one
 		c.Faults = append(c.Faults, e4Fault{Kind: "dropAck", Conn: rapid.IntRange(1, i+1).Draw(rt, "conn"), Type: rapid.SampledFrom(ackTypes).Draw(rt, "ack"), Nth: rapid.SampledFrom([]int{1, 1, 2}).Draw(rt, "nth")})
 	}
+	if rapid.IntRange(0, 4).Draw(rt, "lateTimeout") == 0 {
+		// the application configures the response timeout only once it is connected, before it makes its first request
+		var rest []e4Step
+		for _, st := range c.Steps {
+			if st.Kind != "connect" {
+				rest = append(rest, st)
+			}
+		}
+		c.Steps = append([]e4Step{{Kind: "connect"}, {Kind: "settle"}}, rest...)
+		n := 0
+		for i := range c.Steps {
+			switch c.Steps[i].Kind {
+			case "pub", "sub", "unsub":
+				n++
+				c.Steps[i].Idx = n
+			}
+		}
+		c.Cfg.RespTimeoutLate = true
+	}
 	if rapid.IntRange(0, 3).Draw(rt, "stall") == 0 {
 		// a broker that stops reading as well as answering, with the keep-alive as a second writer: the j-th packet
 		// (j >= 2) is never answered and every later Write blocks until the client closes the transport
